@@ -61,7 +61,11 @@ pub fn read_state(store: &Store) -> Result<Vec<(String, Result<LTree, String>)>,
 
 /// like `read_state`, with the snapshot id (hex) of each snapshot
 pub fn read_state_ids(store: &Store) -> Result<Vec<(String, String, Result<LTree, String>)>, String> {
-    let env = Env::from_store(store.clone());
+    read_state_env(&Env::from_store(store.clone()))
+}
+
+/// the same through a prepared environment (listing order etc.)
+pub fn read_state_env(env: &Env) -> Result<Vec<(String, String, Result<LTree, String>)>, String> {
     let repo = env.open_full().map_err(|e| format!("open/index: {}", e.display_log()))?;
     let snaps = repo.get_all_snapshots().map_err(|e| format!("listing snapshots: {}", e.display_log()))?;
     Ok(snaps.iter().map(|s| (s.id.to_hex().to_string(), s.label.clone(), read_snapshot(&repo, s))).collect())
